@@ -574,7 +574,7 @@ func init() {
 				{Name: "real", Mode: "real", Shards: 12, Timeout: 60 * time.Minute},
 			}
 		},
-		Rule: "Cases: (1) an agent-level grid {4 DAG shapes} x {step that returns on the signal but never by itself, step that ignores the signal, step that finishes by itself, retrying step, repeating step} x {stop landed synchronously while running (2 depths), at dagsched.launch, at worker.beforeExec (between the cancel check and executor creation, 2 occurrences), during the retry wait, between repeat iterations, at the handlers point} x {Agent.Signal(SIGTERM), POST /stop over the real unix socket, each with and without signalOnStop}, through the real Agent.Run (quick: every third grid point, rotated by seed); (2) random scheduler-level DAGs with Signal/Cancel/timeout at PRNG-chosen instants; (3) random agent-level cases; (4) free-running scheduler-level cases under -race; (5) REAL-PROCESS pass: the real `blackdagger start` with real child processes as steps — {sleep, shell wrapper, handler that exits on TERM, process that ignores TERM, shell whose background child keeps the step's stdout pipe open, signalOnStop: SIGINT, two running steps + a pending one, a repeating step} x {SIGTERM to the agent, the real `blackdagger stop`, timeoutSec: 2}; oracle from marker files written by the children and /proc: the start process ends within 45 s (maxCleanUpTimeSec 1), no process of the run is left alive, the pending step never began, each handling step received SIGTERM (SIGINT with signalOnStop through the stop command), repeating steps neither signalled nor re-iterated, recorded status canceled with onCancel + onExit (timeout: not finished, onExit). Oracle of (1)-(4) over the event log relative to the instant T the stop was accepted (after fan-out): no step launched and started after T; every non-repeating step executing at T is sent signalOnStop (HTTP stop) or SIGTERM; a run that has not returned 35 s after T (maxCleanUpTime 0.2 s, agent poll 3 s: >=10x margin; scripted steps cannot end by themselves) is a hang, classified by the step left executing; stopped runs are canceled with onCancel+onExit; timeouts end, are not 'finished', run onExit, start nothing after the deadline; repeating steps are neither re-iterated after T nor signalled. Non-trivial = the stop landed (StopSeq >= 0). Distinct = (case, event order).",
+		Rule: "Cases: (1) an agent-level grid {4 DAG shapes} x {step that returns on the signal but never by itself, step that ignores the signal, step that finishes by itself, retrying step, repeating step} x {stop landed synchronously while running (2 depths), at dagsched.launch, at worker.beforeExec (between the cancel check and executor creation, 2 occurrences), during the retry wait, between repeat iterations, at the handlers point} x {Agent.Signal(SIGTERM), POST /stop over the real unix socket, each with and without signalOnStop}, through the real Agent.Run (quick: every third grid point, rotated by seed); (2) random scheduler-level DAGs with Signal/Cancel/timeout at PRNG-chosen instants; (3) random agent-level cases; (4) free-running scheduler-level cases under -race; (5) REAL-PROCESS pass: the real `blackdagger start` with real child processes as steps — {sleep, shell wrapper, handler that exits on TERM, process that ignores TERM, shell whose background child keeps the step's stdout pipe open, signalOnStop: SIGINT, two running steps + a pending one, a repeating step} x {SIGTERM to the agent, the real `blackdagger stop`, timeoutSec: 2}; oracle from marker files written by the children and /proc: the start process ends within 45 s (maxCleanUpTimeSec 1), no process of the run is left alive, the pending step never began, each handling step received SIGTERM (SIGINT with signalOnStop through the stop command), repeating steps neither signalled nor re-iterated, recorded status canceled with onCancel + onExit (timeout: not finished, onExit). Oracle of (1)-(4) over the event log relative to the instant T the stop was accepted (after fan-out): no step launched and started after T; every non-repeating step executing at T is sent signalOnStop (HTTP stop) or SIGTERM; a run that has not returned 35 s after T (maxCleanUpTime 0.2 s, agent poll 3 s: >=10x margin; scripted steps cannot end by themselves) is a hang, classified by the step left executing; stopped runs are canceled with onCancel+onExit; timeouts end, are not 'finished', run onExit, start nothing after the deadline; repeating steps are neither re-iterated after T nor signalled; a step whose command was ended by the DAG deadline (its Run() returned with the context error) is never launched again; stops are also landed between the loop cancel check and the launch of the chosen step (hook dagsched.beforeLaunch); scheduler-level cases whose only signal was lost before the process existed are counted, not judged (the escalation is the agent part). Non-trivial = the stop landed (StopSeq >= 0). Distinct = (case, event order).",
 		Assumptions: []string{"the label after a timeout is not constrained beyond 'not finished' (the pinned suite asserts 'failed')",
 			"wall-clock is used only for the hang bound, with >= 10x margin against steps that cannot end by themselves; watchdog expiry elsewhere is inconclusive",
 			"real process groups (sh + grandchild) are exercised by the procrun part, not by the scripted executor"}})
